@@ -391,9 +391,20 @@ def check_config(cfg, rng, ctr):
     d = tempfile.mkdtemp(prefix="vt_c13_")
     try:
         path = write_config(cfg, d)
-        with observe.Quiet():
-            gc = read_config_from_file(Path(path))
-            tealer = init_tealer_from_config(gc)
+        try:
+            with observe.Quiet():
+                gc = read_config_from_file(Path(path))
+                tealer = init_tealer_from_config(gc)
+        except (Exception, SystemExit) as e:
+            # every generated configuration is well-formed; one that also describes a group (exact placement test) must be
+            # accepted - a rejection gives no verdict for any of its transactions
+            if satisfiable(cfg):
+                import traceback
+                ctr["configurations"] += 1
+                return [{"kind": "valid-configuration-rejected", "key": type(e).__name__,
+                         "what": "a well-formed, satisfiable configuration was rejected: %s: %s" % (type(e).__name__, str(e)[:200]),
+                         "trace": traceback.format_exc()[-600:], "config": {"txns": cfg["txns"]}}], False
+            raise
         classes = observe.detector_classes()
         reported = {}
         with observe.Quiet():
